@@ -2,7 +2,7 @@
   Props/C01.lean — Every accepted operation resolves exactly once, with its own acknowledgement.
   About Model/Engine.lean: `complete_operation_as_success/failure`, the ack handlers, `reset`.
 -/
-import GV.Proofs.EngineBasics
+import GV.Proofs.EngineInv
 namespace GV.Props.C01
 open GV
 
@@ -121,3 +121,72 @@ example : ∃ e', ({ cfg := {}, ops := [(5, { id := 5, packet := .publish { qos 
   simpa using this
 
 end GV.Props.C01
+
+namespace GV.Props.C01
+open GV
+
+/-! ### every history
+
+  The theorems below quantify over **every** configuration and **every** finite sequence of events — user
+  submissions, connection opened / closed, inbound bytes (any bytes), write completions, service calls with any
+  buffer size, time queries and resets, in any order, legal for a driver or not.  `runEvents` folds `step` over the
+  sequence and collects every completion handed to the user.  User operations are identified by the index the
+  caller attaches to them (`UserEvent.idx`). -/
+
+/-- **Conservation.**  After any history, the user operations still tracked by the engine together with those it has
+    resolved are exactly the user operations that were submitted — as multisets: nothing is resolved that was not
+    submitted, nothing is resolved more often than it was submitted, and nothing submitted is neither tracked nor
+    resolved (no operation is silently dropped). -/
+theorem tracked_or_resolved (cfg : Config) (evs : List Event) :
+    (trackedIdx (runEvents (Engine.new cfg) evs).1.ops ++ (runEvents (Engine.new cfg) evs).2.map (·.1)).Perm
+      (evs.flatMap Event.submitted) := by
+  have h := (run_conserves evs (Engine.new cfg) (new_core_ok cfg) rfl).2.2
+  simpa [trackedIdx, Engine.new] using h
+
+/-- **Never twice.**  If the caller's indices are distinct, no operation is resolved twice — and none that has been
+    resolved is still tracked. -/
+theorem never_resolved_twice (cfg : Config) (evs : List Event) (hd : (evs.flatMap Event.submitted).Nodup) :
+    ((runEvents (Engine.new cfg) evs).2.map (·.1)).Nodup ∧
+    ∀ i ∈ (runEvents (Engine.new cfg) evs).2.map (·.1), i ∉ trackedIdx (runEvents (Engine.new cfg) evs).1.ops := by
+  have h := tracked_or_resolved cfg evs
+  have hn := (h.nodup_iff).mpr hd
+  rw [List.nodup_append] at hn
+  exact ⟨hn.2.1, fun i hi ht => hn.2.2 i ht i hi rfl⟩
+
+/-- **Only what was submitted.**  Every completion belongs to a submitted operation. -/
+theorem resolved_was_submitted (cfg : Config) (evs : List Event) :
+    ∀ i ∈ (runEvents (Engine.new cfg) evs).2.map (·.1), i ∈ evs.flatMap Event.submitted := by
+  intro i hi
+  exact (tracked_or_resolved cfg evs).mem_iff.mp (List.mem_append_right _ hi)
+
+theorem runEvents_append (e : Engine) (a b : List Event) :
+    runEvents e (a ++ b) = ((runEvents (runEvents e a).1 b).1, (runEvents e a).2 ++ (runEvents (runEvents e a).1 b).2) := by
+  induction a generalizing e with
+  | nil => simp [runEvents]
+  | cons ev rest ih =>
+    simp only [List.cons_append, runEvents]
+    rw [ih]
+    simp [List.append_assoc]
+
+/-- **Reset resolves everything.**  A history that ends with a reset (client closed) has resolved every submitted
+    operation exactly once, and nothing stays tracked. -/
+theorem reset_resolves_everything (cfg : Config) (evs : List Event) (t : Nat) :
+    (runEvents (Engine.new cfg) (evs ++ [.reset t])).1.ops = [] ∧
+    ((runEvents (Engine.new cfg) (evs ++ [.reset t])).2.map (·.1)).Perm (evs.flatMap Event.submitted) := by
+  have h := tracked_or_resolved cfg (evs ++ [.reset t])
+  have hops : (runEvents (Engine.new cfg) (evs ++ [.reset t])).1.ops = [] := by
+    rw [runEvents_append]
+    simp only [runEvents, step, Engine.finish]
+    exact (reset_leaves_nothing _).1
+  refine ⟨hops, ?_⟩
+  rw [hops] at h
+  simpa [trackedIdx, Event.submitted] using h
+
+/-- non-vacuity: a concrete history (offline submission of a QoS 1 publish and a subscribe, connection, reset) in which
+    both operations are resolved, each once -/
+example : ((runEvents (Engine.new {}) [.user 0 (.publish { qos := 1, topic := [97] } 7 none), .opened 1 100,
+      .user 2 (.subscribe { subscriptions := [{ topicFilter := [97] }] } 8 none), .service 3 4096 0, .reset 4]).2.map (·.1)).Perm [7, 8] := by
+  decide +kernel
+
+end GV.Props.C01
+
